@@ -41,7 +41,7 @@ def _dh_jobs():
     return out
 P['C19'] = dict(
     level_text='Every decoder (and, in the whole-client harnesses, the framing code of assemble_op and connect_op) is executed on every byte string up to the stated length held in an exact-size allocation; the solver decides for every access whether it can leave its allocation, and whether the library can accept bytes the reference decoder rejects.',
-    level_note='Bounds: packet bodies <= 6 (quick) / 9 (thorough) bytes per decoder. UTF-8 content of received strings and at-most-once rules for properties are not part of the oracle (the reference is lenient there).',
+    level_note='Bounds: packet bodies <= 6 (quick) / 9 (thorough) bytes per decoder. Jobs mut_*: mutations of valid packets - a reference-encoded body of 25-45 bytes full of properties (strings, binary data, string pairs, variable byte integers, every CONNACK capability) with 1 (quick) / 2 (thorough) bytes at every choice of positions replaced by symbolic bytes, whole or truncated at every length; same oracles plus field-by-field comparison of what was decoded with the reference. UTF-8 content of received strings and at-most-once rules for properties are not part of the oracle (the reference is lenient there).',
     assumptions=['reference decoder harness/ref_mqtt.hpp written by hand from MQTT 5.0 sections 2.1-2.2, 3.1-3.15'],
     jobs=_dh_jobs())
 
@@ -141,6 +141,8 @@ P['C10'] = dict(
           dict(name='backoff', tu='harness/w_conn.cpp', entry='h_backoff', engine='B', clock=True, defs={'VK_SYMCFG': 0, 'VK_ATTEMPTS': 2, 'VK_BYTES': 6}, reach=['saturated'], samples=7),
           dict(name='broker_list', tu='harness/w_conn.cpp', entry='h_brokers', engine='B', clock=True, defs={'VK_SYMCFG': 0, 'VK_ATTEMPTS': 2, 'VK_BYTES': 6}, reach=['two-hosts', 'one-host'], samples=8)])
 
+for _e in ['puback', 'pubcomp', 'suback', 'connack', 'publish', 'disconnect', 'auth']:
+    P['C19']['jobs'].append(dict(name='mut_' + _e, tu=_dh, entry='h_mut_' + _e, engine='B', defs_quick={'VK_BYTES': 6, 'VK_MUT': 1}, defs_thorough={'VK_BYTES': 9, 'VK_MUT': 2}, reach=['accepted', 'rejected', 'truncated'], samples=8))
 P['C19']['jobs'] += [dict(name='handshake_bytes', tu='harness/w_conn.cpp', entry='h_hostile_handshake', engine='B', clock=True, defs={'VK_SYMCFG': 0, 'VK_ATTEMPTS': 1}, defs_quick={'VK_BYTES': 5}, defs_thorough={'VK_BYTES': 6},
                           reach=['accepted', 'rejected', 'split', 'long-reply'], samples=10)]
 
